@@ -24,6 +24,7 @@ MODULES = ["Pxv.Thm.C13"]
 PKG = "c13"
 WHICH = "store"
 LONG = 3600000  # ms
+HUGE = 200000000000000  # ms, ~6300 years: close to the largest TTL jiff's Timestamp can absorb (beyond it both backends panic)
 
 # ------------------------------------------------------------------------------------------------
 # source shape
@@ -257,8 +258,8 @@ def time_alphabet(backend, mode):
     """(q, ttls, advances): chosen so that no answer depends on a wall-clock race (see harness)."""
     if mode == "virtual":
         if backend == "mem":
-            return 500, [0, 0, 500, 1000, 1500, 2000, 5000, LONG], [500, 1000, 1500, 2000, 5000]
-        return 1000, [0, 0, 1000, 2000, 3000, 5000, LONG], [1000, 1000, 2000, 3000, 5000]
+            return 500, [0, 0, 500, 1000, 1500, 2000, 5000, LONG, LONG, HUGE], [500, 1000, 1500, 2000, 5000]
+        return 1000, [0, 0, 1000, 2000, 3000, 5000, LONG, LONG, HUGE], [1000, 1000, 2000, 3000, 5000]
     # real sleeps: memory deadlines sit 250 ms off the 500 ms sleep grid (so remaining TTLs are = 250 mod 500 and
     # rounding up to q = 500 absorbs the scheduling jitter in either direction); SQLite starts 20 ms into a second
     if backend == "mem":
